@@ -5,6 +5,8 @@ import json, os, sys
 ROOT = os.path.dirname(os.path.dirname(os.path.abspath(__file__)))
 pid = sys.argv[1]
 ev = json.load(open(os.path.join(ROOT, "evidence", f"{pid}.json")))
+if ev.get("tier") != "thorough" and "--force" not in sys.argv:
+    sys.exit("refusing: the latest evidence of %s is from the %s tier; thorough-only findings would be dropped (use --force after checking)" % (pid, ev.get("tier")))
 hit = set(ev["coverage"].get("known_findings_hit", {}))
 path = os.path.join(ROOT, "known_findings.json")
 known = json.load(open(path))
